@@ -23,7 +23,7 @@ const CODES: [u8; 7] = [0x00, 0x01, 0x2E, 0x28, 0x7F, 0xF2, 0x19];
 
 #[derive(Clone, Debug, Serialize, Deserialize, PartialEq, Eq, Hash)]
 pub struct Scenario {
-    /// 0 create, 1 assert, 2 U2F register
+    /// 0 create, 1 assert, 2 U2F register, 3 create through Client, 4 assert through Client
     pub op: u8,
     pub hmac: HmacCfg,
     pub counter_cfg: bool,
@@ -73,7 +73,11 @@ pub fn execute(run: &Run) -> Result<Observed, String> {
     store.set_yields(sc.store_yields);
     let uv = ScriptedUv::new(sc.script.clone());
     let cfg = AuthCfg { counter: sc.counter_cfg, hmac: sc.hmac, ..Default::default() };
-    let mut auth = cer::build_authenticator(store.clone(), uv, &cfg);
+    let mut auth = Some(cer::build_authenticator(store.clone(), uv, &cfg));
+    let mut client: Option<passkey_client::Client<RefStore, ScriptedUv, crate::model::rpid::HProvider>> = None;
+    if sc.op >= 3 {
+        client = Some(passkey_client::Client::new_with_custom_tld_provider(auth.take().unwrap(), crate::model::rpid::HProvider::new(crate::model::rpid::ProviderKind::Default)));
+    }
     let salts = |n: u8| AuthenticatorPrfInputs { eval: (n > 0).then(|| AuthenticatorPrfValues { first: [7u8; 32], second: (n > 1).then_some([8u8; 32]) }), eval_by_credential: None };
     let pin = sc.pin_auth.then(|| vec![2u8; 16].into());
     let list = |hit_id: &[u8]| match sc.list {
@@ -96,7 +100,7 @@ pub fn execute(run: &Run) -> Result<Observed, String> {
                     pin_auth: pin,
                     pin_protocol: None,
                 };
-                let a = &mut auth;
+                let a = auth.as_mut().unwrap();
                 Box::pin(async move { a.make_credential(req).await.map(|r| r.auth_data.counter).map_err(u8::from) })
             }
             1 => {
@@ -109,12 +113,49 @@ pub fn execute(run: &Run) -> Result<Observed, String> {
                     pin_auth: pin,
                     pin_protocol: None,
                 };
-                let a = &mut auth;
+                let a = auth.as_mut().unwrap();
                 Box::pin(async move { a.get_assertion(req).await.map(|r| Some(u32::from_be_bytes(r.auth_data.to_vec()[33..37].try_into().unwrap()))).map_err(u8::from) })
             }
-            _ => {
-                let a = &mut auth;
+            2 => {
+                let a = auth.as_mut().unwrap();
                 Box::pin(async move { U2fApi::register(a, RegisterRequest { challenge: [4u8; 32], application: [5u8; 32] }, b"u2f-key-handle-01").await.map(|_| None).map_err(u8::from) })
+            }
+            3 => {
+                let c = client.as_mut().unwrap();
+                let site = &crate::ceremony::SITES[0];
+                let uvr = cer::uv_req(if sc.uv { 0 } else { 2 });
+                let ext = (sc.prf > 0).then(|| passkey_types::webauthn::AuthenticationExtensionsClientInputs {
+                    cred_props: Some(true),
+                    prf: Some(passkey_types::webauthn::AuthenticationExtensionsPrfInputs { eval: Some(passkey_types::webauthn::AuthenticationExtensionsPrfValues { first: vec![7u8; 9].into(), second: (sc.prf > 1).then(|| vec![8u8; 3].into()) }), eval_by_credential: None }),
+                    prf_already_hashed: None,
+                });
+                let req = cer::creation_options(site.rp, b"c07", b"new-user", "u", if sc.algs_supported { &[-257, -7] } else { &[-257] }, list(b"selected-cred-0001"), Some(cer::selection(None, sc.rk, uvr)), ext);
+                Box::pin(async move {
+                    match c.register(site.origin(), req, passkey_client::DefaultClientData).await {
+                        Ok(cred) => Ok(crate::model::authdata::decode(&cred.response.authenticator_data).ok().map(|d| d.counter)),
+                        Err(passkey_client::WebauthnError::AuthenticatorError(b)) => Err(b),
+                        Err(_) => Err(0xFE),
+                    }
+                })
+            }
+            _ => {
+                let c = client.as_mut().unwrap();
+                let site = &crate::ceremony::SITES[0];
+                let uvr = cer::uv_req(if sc.uv { 0 } else { 2 });
+                let ext = (sc.prf > 0).then(|| passkey_types::webauthn::AuthenticationExtensionsClientInputs {
+                    cred_props: None,
+                    prf: Some(passkey_types::webauthn::AuthenticationExtensionsPrfInputs { eval: Some(passkey_types::webauthn::AuthenticationExtensionsPrfValues { first: vec![7u8; 9].into(), second: None }), eval_by_credential: None }),
+                    prf_already_hashed: None,
+                });
+                let req = cer::request_options(site.rp, b"c07", list(b"selected-cred-0001"), uvr, ext);
+                Box::pin(async move {
+                    match c.authenticate(site.origin(), req, passkey_client::DefaultClientData).await {
+                        Ok(a) => Ok(crate::model::authdata::decode(&a.response.authenticator_data).ok().map(|d| d.counter)),
+                        Err(passkey_client::WebauthnError::AuthenticatorError(b)) => Err(b),
+                        Err(passkey_client::WebauthnError::CredentialNotFound) => Err(0x2E),
+                        Err(_) => Err(0xFE),
+                    }
+                })
             }
         };
         let mut task = Task::new(fut);
@@ -156,8 +197,8 @@ pub fn judge(run: &Run, o: &Observed) -> Result<(), String> {
     }
     let new: Vec<&PkSnap> = o.after.iter().filter(|s| !before.iter().any(|b| b.id == s.id)).collect();
     let kept_equal = before.iter().all(|b| o.after.contains(b));
-    if sc.op != 1 {
-        // registration (CTAP2 or U2F)
+    if sc.op != 1 && sc.op != 4 {
+        // registration (CTAP2, U2F or through Client)
         match &o.result {
             Some(Err(e)) => {
                 if o.after != before {
@@ -231,7 +272,7 @@ fn scenario() -> impl Strategy<Value = Scenario> {
         1 => Just(Err(0x27u8)),
     ];
     (
-        (0u8..3, prop_oneof![Just(HmacCfg::None), Just(HmacCfg::UvOnly), Just(HmacCfg::UvOnlyMc), Just(HmacCfg::WithoutUvMc)], any::<bool>(), prop_oneof![4 => Just(Disc::Full), 1 => Just(Disc::OnlyNonDiscoverable), 2 => Just(Disc::ForcedDiscoverable)]),
+        (0u8..5, prop_oneof![Just(HmacCfg::None), Just(HmacCfg::UvOnly), Just(HmacCfg::UvOnlyMc), Just(HmacCfg::WithoutUvMc)], any::<bool>(), prop_oneof![4 => Just(Disc::Full), 1 => Just(Disc::OnlyNonDiscoverable), 2 => Just(Disc::ForcedDiscoverable)]),
         (proptest::bool::weighted(0.12), proptest::bool::weighted(0.93), any::<bool>(), script, 0usize..3, prop_oneof![6 => Just(Some(true)), 1 => Just(None)]),
         (proptest::bool::weighted(0.9), proptest::bool::weighted(0.05), prop_oneof![2 => Just(0u8), 1 => Just(1u8), 3 => Just(2u8)], 0u8..3, prop_oneof![Just(None), Just(Some(0u32)), Just(Some(41)), Just(Some(u32::MAX))], any::<bool>(), 0usize..3),
     )
@@ -260,7 +301,7 @@ pub fn check_scenario(ctx: &mut Ctx, sc: &Scenario) -> Result<(), String> {
     let o = execute(&base)?;
     ctx.eval();
     judge(&base, &o).map_err(|e| format!("{e} [fault-free run]"))?;
-    ctx.class(&format!("{}/fault-free/{}", ["create", "assert", "u2f-register"][sc.op as usize], if matches!(o.result, Some(Ok(_))) { "ok" } else { "err" }));
+    ctx.class(&format!("{}/fault-free/{}", ["create", "assert", "u2f-register", "client-create", "client-assert"][sc.op as usize % 5], if matches!(o.result, Some(Ok(_))) { "ok" } else { "err" }));
     let fallible = o.log.iter().filter(|c| !matches!(c, StoreCall::Info)).count();
     let total_polls = o.polls;
     for i in 0..fallible {
@@ -298,7 +339,7 @@ pub fn check_run(ctx: &mut Ctx, run: &Run) -> Result<(), String> {
 
 pub fn run(ctx: &mut Ctx) {
     ctx.level = "fault_enumeration";
-    ctx.rule = "scenarios = generated product of operation (create / assert / U2F register) x hmac-secret config x counter setting x store capability x rk/up/uv x user-validation outcome and suspensions x algorithm support x pin-auth x exclude/allow list (none, miss, hit) x PRF request x selected credential's counter and secrets x store suspensions. For every scenario: the fault-free run, EVERY fallible store call (find/save/update) of that run failing with each status of {0x00,0x01,0x2E,0x28,0x7F,0xF2,0x19} singly, and cancellation (drop) after EVERY number of polls 0..total; plus generated combinations of 2-3 faults with cancellation. Non-trivial = a run in which a fault was planned or the operation was dropped; distinct by run.".into();
+    ctx.rule = "scenarios = generated product of operation (create / assert / U2F register at the authenticator API, create / assert through Client) x hmac-secret config x counter setting x store capability x rk/up/uv x user-validation outcome and suspensions x algorithm support x pin-auth x exclude/allow list (none, miss, hit) x PRF request x selected credential's counter and secrets x store suspensions. For every scenario: the fault-free run, EVERY fallible store call (find/save/update) of that run failing with each status of {0x00,0x01,0x2E,0x28,0x7F,0xF2,0x19} singly, and cancellation (drop) after EVERY number of polls 0..total; plus generated combinations of 2-3 faults with cancellation. Non-trivial = a run in which a fault was planned or the operation was dropped; distinct by run.".into();
     ctx.assumptions = vec![
         "suspension points are the ones the public traits offer: user validation and every store call (the doubles suspend a generated number of times)".into(),
         "get_info of the store cannot fail (it returns no Result)".into(),
